@@ -148,6 +148,23 @@ m("next-does-not-remove-when-last", ["C09"], C,
 m("error-path-allocates", ["C13"], "microscpi/src/lib.rs", "mod commands;\n", "extern crate alloc;\nmod commands;\n", )
 M[-1]["extra"] = [(I, "                self.handle_error(error.into());\n", "                let _note = alloc::format!(\"{:?}\", error);\n                self.handle_error(error.into());\n")]
 
+# --- benign changes: behaviour the properties leave open; NO check may fire on these
+m("benign-rest-of-message-skipped-after-execution-error", [], I,
+  "                    self.handle_error(error);\n                }\n\n                if call.terminated",
+  "                    self.handle_error(error);\n                    if !call.terminated {\n                        if let Some(position) = i.iter().position(|b| *b == b'\\n') {\n                            input = &i[position + 1..];\n                            *header = self.root_node();\n                            continue;\n                        }\n                    }\n                }\n\n                if call.terminated")
+m("benign-syntax-errors-reported-as-command-error", [], I,
+  "                self.handle_error(error.into());\n\n                // Discard",
+  "                let error: Error = error.into();\n                self.handle_error(if error == Error::InvalidCharacter { Error::CommandError } else { error });\n\n                // Discard")
+m("benign-f64-in-exponent-notation", [], R,
+  "            write!(f, \"{self}\").await\n        }\n    }\n}\n\nimpl<const N: usize> Response for heapless::String<N>",
+  "            write!(f, \"{self:e}\").await\n        }\n    }\n}\n\nimpl<const N: usize> Response for heapless::String<N>")
+m("benign-reads-of-at-most-16-bytes", [], I,
+  "            let count = adapter.read(&mut cmd_buf[read_offset..]).await?;",
+  "            let limit = (read_offset + 16).min(cmd_buf.len());\n            let count = adapter.read(&mut cmd_buf[read_offset..limit]).await?;")
+m("benign-flush-also-for-silent-messages", [], I,
+  "                    res_buf.clear();\n                }\n",
+  "                    res_buf.clear();\n                }\n                else {\n                    adapter.flush().await?;\n                }\n")
+
 def sh(*a, **k):
     return subprocess.run(a, check=True, capture_output=True, text=True, **k)
 
